@@ -386,6 +386,9 @@ def value_exprs(I, v):
     return []
 
 
+NOT_CONST = object()
+
+
 class BodyPath:
     def __init__(self, kind, guard, outs, exc=None, env_updates=None, note=None):
         self.kind = kind  # 'normal' | 'raise' | 'break'
@@ -456,13 +459,23 @@ def explore_body(I, src, run_body, acc_names, poisoned, env, want_updates=(), to
             raise Unsupported("return inside an abstracted loop body")
         guard = z3.And(child.guard[nguard0:]) if child.guard[nguard0:] else core.TRUE
         updates = {}
+        flags = {}
         if kind == "break":
             for n in want_updates:
                 v = cenv.vars.get(n)
                 if not isinstance(v, Poison) and not isinstance(v, Recorder):
                     updates[n] = v
-        return BodyPath(kind, z3.simplify(guard), {n: r.outs for n, r in recs.items()}, exc, updates,
-                        note=";".join(child.notes))
+        elif kind == "normal":
+            # constant assignments of a non-breaking iteration (`isValid = False`): see the flag rule in apply_paths
+            for n in poisoned:
+                v = cenv.vars.get(n)
+                if isinstance(v, Poison) or isinstance(v, Recorder):
+                    continue
+                flags[n] = v if (v is None or isinstance(v, (bool, int, str))) else NOT_CONST
+        bp = BodyPath(kind, z3.simplify(guard), {n: r.outs for n, r in recs.items()}, exc, updates,
+                      note=";".join(child.notes))
+        bp.flags = flags
+        return bp
 
     try:
         for child, bp in ex.explore(one_path, parent=parent):
@@ -610,8 +623,43 @@ def apply_paths(I, src, sterm, j, results, acc_boxes, env, target_names, note=""
             box.term = fm
         else:
             box.term = core.mk_concat(I, [old, fm], etype)
+    before = {}
     for n in target_names:
+        try:
+            before[n] = env.lookup(n)
+        except KeyError:
+            pass
         env.vars[n] = Poison("loop variable after an abstracted loop")
+    # flag rule: a variable that the body never reads and only ever sets to one constant c (`isValid = False`)
+    # is c after the loop iff some iteration takes an assigning path, and keeps its value otherwise
+    names = set(n for bp in normal for n in getattr(bp, "flags", {}))
+    for n in names:
+        vals = [bp.flags[n] for bp in normal if n in bp.flags]
+        c = vals[0]
+        if any(v is NOT_CONST or type(v) is not type(c) or v != c for v in vals) or n not in before:
+            continue
+        init = before[n]
+        if isinstance(init, (Poison, Recorder)) or not (isinstance(init, bool) or z3.is_bool(init) if isinstance(c, bool)
+                                                        else isinstance(init, type(c)) and not is_z3(init)):
+            continue
+        setters = [bp.guard for bp in normal if n in bp.flags]
+        b = ctx.fresh_bool("flag")
+        w = ctx.fresh_int("w")
+        sterm.new_member(b, w)
+        at_w = z3.Or([inst(g, w) for g in setters])
+        ctx.assume(z3.Implies(b, at_w))
+        ctx.touch([at_w], b)  # elements the setting iteration looks at (e.g. its predecessor) are indices of interest
+        sterm.all_facts.append((z3.Not(b), (lambda elem, idx, gs=setters: z3.Not(z3.Or([inst(g, idx) for g in gs]))),
+                                "flag-not-set"))
+        if isinstance(c, bool):
+            env.vars[n] = bm.simp_bool(z3.If(b, z3.BoolVal(c), init if is_z3(init) else z3.BoolVal(init)))
+        elif init == c:
+            env.vars[n] = c
+        else:
+            if ctx.decide(b, "loop%s sets %s" % (note, n)):
+                env.vars[n] = c
+            else:
+                env.vars[n] = init
     return "done"
 
 
